@@ -34,7 +34,11 @@ def evaluate(ctx, progs):
         st = d.get("stages", {})
         if all(k in st for k in NEEDED) and d.get("genv"):
             # `(prog (file …) (impls …))` for every stage; the model input is the Core one + genv
-            lines.append("\t".join([pid, st["core"], d["genv"], st["mono"], st["lift"], st["anf"]]))
+            cols = [pid, st["core"], d["genv"], st["mono"], st["lift"], st["anf"]]
+            # back half: GlobalGoEnv dump, real annotated ANF, real Go AST
+            if d.get("goenv") and d.get("aanf") and "go" in st:
+                cols += [d["goenv"], d["aanf"], st["go"]]
+            lines.append("\t".join(cols))
     cov = {"programs": len(lines)}
     if not lines:
         return cov
@@ -46,13 +50,18 @@ def evaluate(ctx, progs):
     for l in p.stdout.split("\n"):
         f = l.split("\t")
         if len(f) >= 4:
-            res[f[0]] = f[1:] + [""] * (5 - len(f[1:]))
+            res[f[0]] = f[1:] + [""] * (12 - len(f[1:]))
     n = {"EQ": 0, "EQT": 0, "DIFF": 0, "UNSUPPORTED": 0}
     n_in = n_out = n_from_mono = 0
     agree_m = definite_m = 0
     reasons, by_stream = {}, {}
     agree = definite_in = 0
     diffs, samples_out, samples_in = [], [], []
+    go_v = {"EQ": 0, "EQA": 0, "DIFF": 0, "UNSUPPORTED": 0}
+    n_back = n_e2e = e2e_agree = e2e_def = 0
+    e2e_reasons, e2e_samples, e2e_by_stream = {}, [], {}
+    n_dce_ok = n_emit = emit_def = emit_agree = 0
+    dce_reasons, emit_samples = {}, []
     for pid, *_ in [l.split("\t", 1) for l in lines]:
         r = res.get(pid)
         if r is None:
@@ -71,6 +80,51 @@ def evaluate(ctx, progs):
         if verdict == "UNSUPPORTED" and "mono:panic" in detail:
             # the real `mono` returned, the model says the Rust panics there: model and implementation disagree
             diffs.append({"id": pid, "detail": "model reports a mono panic the implementation did not have: " + detail[:300]})
+        # ---- back half (columns 6..9): whole-pipeline model vs the real Go file, end-to-end fragment
+        if r[6].startswith("go="):
+            n_back += 1
+            gv = r[6][3:]
+            kind = gv.split(":")[0]
+            go_v[kind] = go_v.get(kind, 0) + 1
+            if kind == "DIFF" or kind == "decode-error":
+                diffs.append({"id": pid, "detail": "whole-pipeline model (Core dump in) vs real go_file output: " + gv[:300]})
+            if r[7] == "E2E-IN":
+                n_e2e += 1
+                e2e_by_stream[stream] = e2e_by_stream.get(stream, 0) + 1
+                if len(e2e_samples) < 5:
+                    e2e_samples.append(pid)
+                o = progs[pid].get("out") or {}
+                oc, og = o.get("core"), o.get("go")
+                if oc and og and definite(oc[0]):
+                    e2e_def += 1
+                    if (oc[0], oc[1], oc[2]) == (og[0], og[1], og[2]):
+                        e2e_agree += 1
+                    elif kind in ("EQ", "EQA") and verdict in ("EQ", "EQT"):
+                        ctx.broken_ties.append(("core_to_go_preserves contradicted by evaluation",
+                                                f"{pid}: in InE2EFragment, model = real dumps, Sem(core)={oc[0]} Go.Sem(go)={og[0]}"))
+            else:
+                for w in [x for x in r[8].split(";") if x.strip()] or ["?"]:
+                    k = w.strip()
+                    e2e_reasons[k] = e2e_reasons.get(k, 0) + 1
+            # DCE contract of the compiled file; fragment of `core_to_emitted_go_preserves`
+            if r[9] == "dce=OK":
+                n_dce_ok += 1
+            else:
+                for k in sorted({":".join(x.strip().split(":")[::2]) for x in r[11].split(";") if x.strip()}):
+                    dce_reasons[k] = dce_reasons.get(k, 0) + 1
+            if r[10] == "EMIT-IN":
+                n_emit += 1
+                if len(emit_samples) < 5:
+                    emit_samples.append(pid)
+                o = progs[pid].get("out") or {}
+                oc, og = o.get("core"), o.get("go")
+                if oc and og and definite(oc[0]):
+                    emit_def += 1
+                    if (oc[0], oc[1], oc[2]) == (og[0], og[1], og[2]):
+                        emit_agree += 1
+                    elif kind in ("EQ", "EQA") and verdict in ("EQ", "EQT"):
+                        ctx.broken_ties.append(("core_to_emitted_go_preserves contradicted by evaluation",
+                                                f"{pid}: in InEmitFragment, model = real dumps, Sem(core)={oc[0]} Go.Sem(go)={og[0]}"))
         if infrag == "IN":
             n_in += 1
             bs["in_fragment"] += 1
@@ -122,6 +176,24 @@ def evaluate(ctx, progs):
         "of_those_real_anf_outcome_equals_core_outcome": agree,
         "from_mono_fragment_with_definite_mono_run": definite_m,
         "of_those_real_anf_outcome_equals_mono_outcome": agree_m,
+        "end_to_end": {
+            "programs_with_back_half_dumps": n_back,
+            "whole_pipeline_model_eq_real_go(Core dump in, emitted Go AST out)": go_v["EQ"],
+            "eq_given_the_real_annotations(EQA: closure-typed let/if node, C09 EQT artefact)": go_v["EQA"],
+            "diff": go_v["DIFF"], "unsupported(model reaches a go/compile.rs panic)": go_v["UNSUPPORTED"],
+            "in_InE2EFragment(core_to_go_preserves speaks about them)": n_e2e,
+            "in_InE2EFragment_by_stream": e2e_by_stream,
+            "outside_reasons(middle-end = outside InPipeFragment; go:main:… = why main is outside the back end's fragment)": dict(sorted(e2e_reasons.items(), key=lambda kv: -kv[1])),
+            "in_fragment_with_definite_core_run": e2e_def,
+            "of_those_real_go_outcome(Go.Sem)_equals_core_outcome(Sem)": e2e_agree,
+            "samples_inside": e2e_samples,
+            "compiled_files_inside_the_DCE_contract(Dce.fileDceOK)": n_dce_ok,
+            "outside_the_DCE_contract_by_failing_clause(programs)": dict(sorted(dce_reasons.items(), key=lambda kv: -kv[1])),
+            "in_InEmitFragment(core_to_emitted_go_preserves speaks about them: Core -> emitted Go, no hypotheses)": n_emit,
+            "in_InEmitFragment_with_definite_core_run": emit_def,
+            "of_those_real_emitted_go_outcome(Go.Sem)_equals_core_outcome(Sem)": emit_agree,
+            "samples_in_InEmitFragment": emit_samples,
+        },
         "samples_inside": samples_in, "samples_outside": samples_out, "diff_samples": diffs[:5],
     })
     return cov
